@@ -2,7 +2,50 @@
  * exact-size heap block ending with the record under test, so that AddressSanitizer sees any read beyond it. */
 #define _GNU_SOURCE
 #include "hcommon.h"
+/* the resolver entry points dns.c may call are redirected to recorders: which one is used (an exact query or one
+   that goes through the search list) and with which name is the observation (C20) */
+#include <resolv.h>
+static int h_res_nquery(res_state st, const char *name, int class, int type, unsigned char *buf, int len);
+static int h_res_nsearch(res_state st, const char *name, int class, int type, unsigned char *buf, int len);
+static int h_res_query(const char *name, int class, int type, unsigned char *buf, int len);
+static int h_res_search(const char *name, int class, int type, unsigned char *buf, int len);
+#undef res_nquery
+#undef res_nsearch
+#undef res_nquerydomain
+#undef res_query
+#undef res_search
+#undef res_querydomain
+#define res_nquery h_res_nquery
+#define res_nsearch h_res_nsearch
+#define res_query h_res_query
+#define res_search h_res_search
 #include "dns.c"
+
+static int h_nq = 0;
+static char h_qlog[8][400];
+static void h_qnote(const char *how, const char *name, int type) {
+    int i, p;
+    if (h_nq >= 8) return;
+    p = snprintf(h_qlog[h_nq], sizeof(h_qlog[0]), "%s:%d:", how, type);
+    for (i = 0; name[i] && p < 390; i++) p += snprintf(h_qlog[h_nq] + p, 4, "%02x", (unsigned char)name[i]);
+    h_nq++;
+}
+static int h_res_nquery(res_state st, const char *name, int class, int type, unsigned char *buf, int len) {
+    (void)class; (void)buf; (void)len;
+    h_qnote("exact", name, type); st->res_h_errno = HOST_NOT_FOUND; return -1;
+}
+static int h_res_nsearch(res_state st, const char *name, int class, int type, unsigned char *buf, int len) {
+    (void)class; (void)buf; (void)len;
+    h_qnote("search", name, type); st->res_h_errno = HOST_NOT_FOUND; return -1;
+}
+static int h_res_query(const char *name, int class, int type, unsigned char *buf, int len) {
+    (void)class; (void)buf; (void)len;
+    h_qnote("exact", name, type); h_errno = HOST_NOT_FOUND; return -1;
+}
+static int h_res_search(const char *name, int class, int type, unsigned char *buf, int len) {
+    (void)class; (void)buf; (void)len;
+    h_qnote("search", name, type); h_errno = HOST_NOT_FOUND; return -1;
+}
 
 static int opidx;
 
@@ -68,6 +111,23 @@ static void op_rr(int type, char **tok, int n) {
     free(rdata);
 }
 
+/* query <naptr|srv> <namehex> : the real querynaptr / querysrv; every resolver call they make is reported */
+static void op_query(char **tok, int n) {
+    int l, i;
+    uint8_t *nm;
+    char *name;
+    if (n < 2) return;
+    nm = h_unhex(tok[1], &l);
+    name = malloc(l + 1); memcpy(name, nm, l); name[l] = 0;
+    h_nq = 0;
+    if (!strcmp(tok[0], "naptr")) { struct naptr_record **r = querynaptr(name, 1); if (r) freenaptrresponse(r); }
+    else { struct srv_record **r = querysrv(name, 1); if (r) freesrvresponse(r); }
+    printf("obs %d query n=%d", opidx, h_nq);
+    for (i = 0; i < h_nq; i++) printf(" %s", h_qlog[i]);
+    printf("\n");
+    free(name); free(nm);
+}
+
 static void h_case_begin(void) { opidx = 0; debug_init("verif"); debug_set_level(1); }
 static void h_line(char *kind, char *rest) {
     static char *tok[64];
@@ -77,6 +137,7 @@ static void h_line(char *kind, char *rest) {
     if (n < 1) return;
     if (!strcmp(tok[0], "naptr")) op_rr(ns_t_naptr, tok + 1, n - 1);
     else if (!strcmp(tok[0], "srv")) op_rr(ns_t_srv, tok + 1, n - 1);
+    else if (!strcmp(tok[0], "query")) op_query(tok + 1, n - 1);
     else printf("obs %d unknown-op %s\n", opidx, tok[0]);
     opidx++;
 }
